@@ -38,6 +38,21 @@ fn main() {
             }
         }
     }
+    if args[1] == "lspfmt" {
+        // pv lspfmt <file> : format through the real language server, print the result
+        let text = std::fs::read_to_string(&args[2]).unwrap();
+        let mut l = pv::lsp::Lsp::start(3, serde_json::json!({}), "dbg").unwrap();
+        l.open("file:///dbg.par", 1, &text);
+        let r = l.request("textDocument/formatting", serde_json::json!({"textDocument": {"uri": "file:///dbg.par"}, "options": {"tabSize": 4, "insertSpaces": true}}), 10000);
+        match r {
+            Ok(v) => match pv::lsp::apply_edits(&text, v.as_array().map(|a| a.as_slice()).unwrap_or(&[])) {
+                Ok(f) => println!("FORMATTED:\n{f}"),
+                Err(e) => println!("EDIT ERROR {e} / {v}"),
+            },
+            Err(e) => println!("ERR {e:?}"),
+        }
+        return;
+    }
     if args[1] == "dbg" {
         // pv dbg <file.par> <k> [inputs...]
         let text = std::fs::read_to_string(&args[2]).unwrap();
@@ -86,5 +101,6 @@ fn main() {
         replay: arg(&args, "--replay"),
     };
     let code = pv::checks::dispatch(&ctx);
+    pv::lsp::kill_all_children();
     std::process::exit(code);
 }
